@@ -91,7 +91,7 @@ func known(p mg.Profile) mg.Profile {
 		return p
 	}
 	p.NoAmbiguousDropSubscription = true // C15's finding: which subscription goes depends on map iteration order
-	p.NoMixedShardType = true // C15's finding: with two sharding types in a policy the catalogue depends on map iteration order
+	p.NoMixedShardType = true            // C15's finding: with two sharding types in a policy the catalogue depends on map iteration order
 	p.NoSGDurChangeWithLiveGroups = true
 	p.NoDropDefaultRP = true
 	p.NoInitShardsAboveGroupSize = true
